@@ -7,7 +7,7 @@ judge accepts it, the design invariant Safe and the composition with C18's merge
 as a program (binding G).  drv_segment executes the programs on the real SegmentAllocator / segment functions /
 DynamicContainer; T_Segment judges every event with the judge only (binding T; pure functions: binding E).
 """
-import glob, hashlib, json, os
+import glob, hashlib, json, os, threading
 from concurrent.futures import ThreadPoolExecutor
 from . import lib
 
@@ -37,6 +37,8 @@ def known(ctx):
                 ctx.known.setdefault("findings", []).append(f)
         else:
             ids.discard(f["id"])
+    # development aid (never set by registered commands): judge a patched tree as if these findings were fixed
+    ids -= set(os.environ.get("VERIF_X01_ASSUME_FIXED", "").split(","))
     return sorted(ids)
 
 
@@ -86,40 +88,58 @@ def mc_cfg(ctx, name, **over):
     return cfg
 
 
-def judge_trace(ctx, trace, source, kd, totals, max_events=20000):
+LOCK = threading.Lock()
+
+
+def t_cfg(ctx, kd):
     cfg = ctx.path("t_segment.cfg")
-    lib.write_cfg(cfg, {"KnownDeviations": lib.tla_set(kd)}, "TInit", "TNext", invariants=["Done"], view="TView")
-    v = lib.judge(ctx, MODULE_T, cfg, trace, max_events=max_events)
-    for k in STAT_KEYS:
-        totals[k] = totals.get(k, 0) + v.get(k, 0)
-    ctx.stage("judge", source=source, events=v["events"], violations=len(v["violations"]),
-              deviations=len(v["deviations"]), wall_s=v["wall_s"], **{k: v.get(k, 0) for k in STAT_KEYS if v.get(k, 0)})
-    lib.classify_trace(ctx, v, trace, source, program_of=program_of)
+    with LOCK:
+        if not os.path.exists(cfg):
+            lib.write_cfg(cfg, {"KnownDeviations": lib.tla_set(kd)}, "TInit", "TNext", invariants=["Done"], view="TView")
+    return cfg
+
+
+def judge_trace(ctx, trace, source, kd, totals, parallel=None):
+    cfg = t_cfg(ctx, kd)
+    nev = sum(1 for _ in open(trace))
+    parallel = parallel or lib.NCPU
+    v = lib.judge(ctx, MODULE_T, cfg, trace, max_events=max(3000, nev // parallel + 1), parallel=parallel)
+    with LOCK:
+        for k in STAT_KEYS:
+            totals[k] = totals.get(k, 0) + v.get(k, 0)
+        ctx.stage("judge", source=source, events=v["events"], violations=len(v["violations"]),
+                  deviations=len(v["deviations"]), wall_s=v["wall_s"], **{k: v.get(k, 0) for k in STAT_KEYS if v.get(k, 0)})
+        lib.classify_trace(ctx, v, trace, source, program_of=program_of)
     return v
 
 
-def mc_and_run(ctx, name, kd, totals, seen, shards=8, keep=False, **over):
+def mc_and_run(ctx, name, kd, totals, seen, shards=8, keep=False, par=None, **over):
+    """One family: TLC (check the model + enumerate programs) -> driver -> monitor.  `par` = threads this family may use."""
+    par = par or lib.NCPU
     cfg = mc_cfg(ctx, name, **over)
     progs = ctx.path(f"prog_{name}.ndjson")
-    r = lib.tlc(ctx, MODULE_MC, cfg, tagged_out={"PROGRAM": progs}, timeout=1500)
-    ctx.cov["states"] += r["distinct"]
-    ctx.cov["transitions"] += r["generated"]
+    r = lib.tlc(ctx, MODULE_MC, cfg, tagged_out={"PROGRAM": progs}, timeout=1500, workers=par)
     n = r["counts"]["PROGRAM"]
-    ctx.stage("mc", family=name, distinct_states=r["distinct"], generated=r["generated"], programs=n, wall_s=r["wall_s"],
-              constants={k: v for k, v in over.items()})
+    with LOCK:
+        ctx.cov["states"] += r["distinct"]
+        ctx.cov["transitions"] += r["generated"]
+        ctx.stage("mc", family=name, distinct_states=r["distinct"], generated=r["generated"], programs=n, wall_s=r["wall_s"],
+                  constants={k: v for k, v in over.items()})
     if n == 0:
         raise lib.ToolError(f"MC_Segment {name}: no program generated")
     trace = ctx.path(f"trace_{name}.ndjson")
-    d = lib.run_sharded(ctx, DRV, progs, trace, shards=shards)
-    ctx.stage("run", family=name, programs=d.get("programs"), events=d.get("events"), hangs=d.get("hangs"), wall_s=d["wall_s"])
+    d = lib.run_sharded(ctx, DRV, progs, trace, shards=min(shards, par))
+    with LOCK:
+        ctx.stage("run", family=name, programs=d.get("programs"), events=d.get("events"), hangs=d.get("hangs"), wall_s=d["wall_s"])
     if d.get("programs") != n:
         raise lib.ToolError(f"driver executed {d.get('programs')} of {n} programs")
-    _, dn = count_programs(progs, seen)
-    if len(ctx.cov["samples"]) < 4 and name in ("empty", "gap", "dyn", "short"):
-        ls = lib.read_lines(trace)
-        s, e = lib.run_of_line(ls, max(1, len(ls) * 2 // 3))
-        ctx.cov["samples"].append({"source": f"MC_Segment {name}", "trace": [slim(json.loads(x)) for x in ls[s:e]]})
-    judge_trace(ctx, trace, f"MC_Segment {name}", kd, totals)
+    with LOCK:
+        _, dn = count_programs(progs, seen)
+        if name in ("empty", "gap", "dyn", "short"):
+            ls = lib.read_lines(trace)
+            s, e = lib.run_of_line(ls, max(1, len(ls) * 2 // 3))
+            ctx.cov["samples"].append({"source": f"MC_Segment {name}", "trace": [slim(json.loads(x)) for x in ls[s:e]]})
+    judge_trace(ctx, trace, f"MC_Segment {name}", kd, totals, parallel=par)
     os.remove(progs)
     if keep:
         return n, dn, trace
@@ -225,21 +245,21 @@ def run(ctx):
     S = lambda *xs: "{" + ", ".join(str(x) for x in xs) + "}"
     if ctx.quick:
         plan = [
-            ("empty", dict(D=4, Max0=2, PreName='"empty"', Sizes=S(100, CAP - 100, CAP, CAP + 1), Idx=S(0, 1), ReMax=S(2), LoadOp="TRUE")),
+            ("empty", dict(D=4, Max0=2, PreName='"empty"', Sizes=S(100, CAP - 100, CAP, CAP + 1), Idx=S(0), ReMax=S(2), LoadOp="TRUE")),
             ("clean2", dict(D=3, Max0=3, PreName='"clean2"', Sizes=S(0, 100, CAP), Idx=S(0, 1, 2), ReMax=S(1, 3))),
             ("gap", dict(D=3, Max0=4, PreName='"gap"', Sizes=S(100, CAP), Idx=S(0, 1, 2), ReMax=S(2, 4))),
             ("gap0", dict(D=3, Max0=2, PreName='"gap0"', Sizes=S(100, CAP), Idx=S(0, 1), ReMax=S(2))),
-            ("short", dict(D=4, Max0=2, PreName='"short"', Sizes=S(10, 500, CAP + 1), WSizes=S(10, 500), Idx=S(0), ReMax=S(2))),
+            ("short", dict(D=3, Max0=2, PreName='"short"', Sizes=S(10, 500, CAP + 1), WSizes=S(10, 500), Idx=S(0), ReMax=S(2))),
             ("short0", dict(D=3, Max0=3, PreName='"short0"', Sizes=S(1, 479), WSizes=S(1, 479), Idx=S(0, 1), ReMax=S(3))),
             ("unloaded", dict(D=3, Max0=2, PreName='"clean2"', Load0="FALSE", Sizes=S(100), Idx=S(0), ReMax=S(2), Loads="{TRUE, FALSE}",
                               LoadOp="TRUE")),
             ("max0", dict(D=2, Max0=0, PreName='"empty"', Sizes=S(0, 100), Idx=S(0), ReMax=S(0, 5000))),
             ("last", dict(D=2, Max0=1023, PreName='"last"', Sizes=S(100), Idx=S(0, 1022), ReMax=S(1023))),
-            ("full", dict(D=2, Max0=2, PreName='"full"', Sizes=S(0, 100, 101), WSizes=S(), Idx=S(0), ReMax=S(2))),
+            ("full", dict(D=2, Max0=2, PreName='"full"', Sizes=S(100, 101), WSizes=S(), Idx=S(0), ReMax=S())),
             ("fn", dict(Family='"fn"')),
             ("dyn", dict(Family='"dyn"', D=3)),
         ]
-        nrand = 400
+        nrand = 300
     else:
         plan = [
             ("empty", dict(D=5, Max0=2, PreName='"empty"', Sizes=S(100, CAP - 100, CAP, CAP + 1), Idx=S(0, 1), ReMax=S(2), LoadOp="TRUE")),
@@ -261,20 +281,36 @@ def run(ctx):
         ]
         nrand = 4000
     total = distinct = 0
-    st_trace = None
-    for name, over in plan:
+    # the largest family first with all threads, the others side by side with a share each
+    name, over = plan[0]
+    n, dn, st_trace = mc_and_run(ctx, name, kd, totals, seen, keep=True, **over)
+    total += n
+    distinct += dn
+    conc = max(2, lib.NCPU // 2)
+    share = max(1, lib.NCPU // conc)
+
+    def one(item):
+        name, over = item
         big = name in ("full", "over", "last")      # load_existing reads whole (sparse) 1 GiB files / 1023-segment listings
-        n, dn, tr = mc_and_run(ctx, name, kd, totals, seen, shards=2 if big else 8, keep=(name == "empty"), **over)
-        total += n
-        distinct += dn
-        st_trace = st_trace or tr
+        return mc_and_run(ctx, name, kd, totals, seen, shards=2 if big else 8, par=share, **over)
+
+    def rand(_):
+        trace = ctx.path("trace_random.ndjson")
+        dump = ctx.path("prog_random.ndjson")
+        d = lib.run_driver(DRV, ["--random", nrand, "--out", trace, "--dump-programs", dump], env={"VERIF_SEED": ctx.seed})
+        with LOCK:
+            ctx.stage("run", source="random", programs=d.get("programs"), events=d.get("events"), hangs=d.get("hangs"), wall_s=d["wall_s"])
+        if d.get("programs") != nrand:
+            raise lib.ToolError(f"driver executed {d.get('programs')} of {nrand} random programs")
+        return trace, dump
+
+    with ThreadPoolExecutor(max_workers=conc) as ex:
+        fr = ex.submit(rand, None)
+        for n, dn, _ in ex.map(one, plan[1:]):
+            total += n
+            distinct += dn
+        trace, dump = fr.result()
     # seeded random programs: longer histories, more segments, odd sizes, mixed directory contents, all three kinds
-    trace = ctx.path("trace_random.ndjson")
-    dump = ctx.path("prog_random.ndjson")
-    d = lib.run_driver(DRV, ["--random", nrand, "--out", trace, "--dump-programs", dump], env={"VERIF_SEED": ctx.seed})
-    ctx.stage("run", source="random", programs=d.get("programs"), events=d.get("events"), hangs=d.get("hangs"), wall_s=d["wall_s"])
-    if d.get("programs") != nrand:
-        raise lib.ToolError(f"driver executed {d.get('programs')} of {nrand} random programs")
     n, dn = count_programs(dump, seen)
     total += n
     distinct += dn
